@@ -299,13 +299,73 @@ def thread_check(sc):
     return None, any(expected)
 
 
+def thread_long_check(sc):
+    """several threads start evaluating the same *never used* long path at once: whatever they
+    find in its lazily filled caches must be complete (a long chain keeps the window open)"""
+    n, threads = sc["steps"], sc["threads"]
+    doc = leaf = {"v": 1}
+    for i in range(n):
+        doc = {"k": doc}
+    old = sys.getswitchinterval()
+    sys.setswitchinterval(1e-6)
+    bad = None
+    try:
+        for trial in range(sc["trials"]):
+            expr = path
+            for i in range(n):
+                expr = expr.k
+            expr = expr.v
+            results = [None] * threads
+            errors = []
+            barrier = threading.Barrier(threads)
+
+            def work(i, expr=expr):
+                try:
+                    barrier.wait()
+                    results[i] = list(itertools.islice(find(expr, doc), 3))
+                except Exception as e:  # noqa
+                    errors.append(f"{type(e).__name__}: {e}")
+
+            ts = [threading.Thread(target=work, args=(i,)) for i in range(threads)]
+            for t in ts:
+                t.start()
+            for t in ts:
+                t.join()
+            if errors:
+                bad = f"trial {trial}: a thread sharing a fresh {n}-step path raised {errors[0]}"
+                break
+            if any(r != [1] for r in results):
+                bad = f"trial {trial}: threads sharing a fresh {n}-step path yield {results}, alone each yields [1]"
+                break
+    finally:
+        sys.setswitchinterval(old)
+    return bad, True
+
+
 def thread_oracle(ctx):
+    def make_long(rng):
+        return {"steps": rng.choice([200, 400]), "threads": rng.randint(2, 4), "trials": 12}
+    _run(ctx, "threads_long", 3, 40, make_long, thread_long_check)
+
     def make(rng):
         docs = [gen.gen_doc(rng) for _ in range(rng.randint(1, 2))]
         pg = gen.PathGen(rng, "all", "has")
         return {"docs": [enc(d) for d in docs], "path": pg.gen_path([docs[0]], maxlen=5, minlen=2),
                 "threads": rng.randint(2, 6)}
     _run(ctx, "threads", 40, 1500, make, thread_check)
+
+
+def long_iteration_oracle(ctx):
+    """C07 for large k: an iterator that has already delivered hundreds of thousands of results
+    (each a few steps away) keeps delivering the next ones"""
+    sc = {"kind": "dict", "path": [["rec"], ["k", "x"]], "take": 350000, "expect": "many", "first": [], "timeout": 120}
+    try:
+        detail, _ = cyclic_check(sc)
+    except Exception as e:  # noqa
+        detail = f"{type(e).__name__}: {e}"
+    if detail:
+        _viol(ctx, "cyclic", detail, sc)
+    ctx.support["long_iteration"] = dict(cases=1, nontrivial=1, failures=1 if detail else 0)
 
 
 # ---------------- C11: a Match tells the truth ----------------
@@ -699,6 +759,159 @@ def snapshot_oracle(ctx):
             out["src"] = sc["src"]
         return out
     _run(ctx, "snapshot", 2500, 60000, make, snapshot_check)
+
+
+# ---------------- C06 / C15: path objects that share a prefix, used on several documents ----------------
+
+def reuse_check(sc):
+    """a path is an immutable value whatever it, its prefix or its siblings have been used for:
+    `base`, `base + e1`, `base + e2` (derived from the very object `base`) are evaluated and
+    rendered in some order on two documents; every use must agree with a path written afresh"""
+    docs = [dec(d) for d in sc["docs"]]
+    b = Builder([])
+    base = b.steps(sc["pre"])
+    objs = [base] + [b.steps(e, p=base) for e in sc["exts"]]
+
+    def fresh(i):
+        return Builder([]).steps(sc["pre"] + ([] if i == 0 else sc["exts"][i - 1]))
+
+    def run(e, doc):
+        try:
+            return [(m.path_as_str, json.dumps(enc(m.data))) for m in itertools.islice(find_matches(e, doc), 200)]
+        except TreepathException as x:
+            return ("exc", tuple(exc_chain(x)))
+
+    nontrivial = False
+    for step, (i, j, render) in enumerate(sc["order"]):
+        if render:
+            a, f = str(objs[i]), str(fresh(i))
+            if a != f:
+                return f"use #{step}: path object {i} renders {a!r}, a freshly written copy {f!r}", True
+            continue
+        a, f = run(objs[i], docs[j]), run(fresh(i), docs[j])
+        if a != f:
+            return (f"use #{step}: path object {i} on document {j} selects {str(a)[:160]}, "
+                    f"a freshly written copy {str(f)[:160]}"), True
+        nontrivial = nontrivial or (bool(a) and not isinstance(a, tuple))
+    return None, nontrivial
+
+
+def _vary_lists(rng, v):
+    """the same shape with longer / shorter lists"""
+    if isinstance(v, dict):
+        return {k: _vary_lists(rng, x) for k, x in v.items()}
+    if isinstance(v, list):
+        out = [_vary_lists(rng, x) for x in v]
+        r = rng.random()
+        if r < 0.4:
+            out = out + [json.loads(json.dumps(rng.choice(out))) if out else rng.choice(gen.SCALARS) for _ in range(rng.randint(1, 3))]
+        elif r < 0.6:
+            out = out[:rng.randint(0, len(out))]
+        return out
+    return v
+
+
+def reuse_oracle(ctx):
+    def crafted(rng):
+        """an explicit slice / index / comma list aimed at one list that is short in one document
+        and long in the other, used on both in either order"""
+        import gen_mut
+        d1 = gen.gen_doc(rng)
+        locs = [l for l in gen_mut.locations(d1) if isinstance(gen_mut.node_at(d1, l), list)]
+        if not locs:
+            d1 = {"k": [rng.choice(gen.SCALARS) for _ in range(rng.randint(0, 3))], "z": d1}
+            locs = [("k",)]
+        loc = rng.choice(locs)
+        d2 = json.loads(json.dumps(d1))
+        lst = gen_mut.node_at(d2, loc)
+        n = len(lst)
+        lst.extend(rng.choice(gen.SCALARS) for _ in range(rng.randint(1, 4)))
+        pre = [["k", nm] if isinstance(nm, str) else ["i", nm] for nm in loc]
+        lo = rng.randint(0, max(0, n))
+        exts = [[["s", lo, n + rng.randint(1, 3), None]],
+                [rng.choice([["s", 0, n + 1, rng.choice([None, 1, 2])], ["t", [0, n, -1, n + 1]], ["i", n], ["s", None, None, -1]])]]
+        docs = [d1, d2] if rng.random() < 0.5 else [d2, d1]
+        order = [(1, 0, False), (2, 0, False), (1, 1, False), (2, 1, False), (0, 1, False), (1, 0, False)]
+        if not pre:
+            pre, exts = exts[0], [exts[1], [["gwc"]]]
+            order = [(0, 0, False), (0, 1, False), (0, 0, False), (1, 1, False)]
+        return {"docs": [gen.enc(docs[0]), gen.enc(docs[1])], "pre": pre, "exts": exts, "order": order}
+
+    def make(rng):
+        if rng.random() < 0.3:
+            return crafted(rng)
+        d1 = gen.gen_doc(rng)
+        d2 = _vary_lists(rng, d1) if rng.random() < 0.7 else gen.gen_doc(rng)
+        if rng.random() < 0.5:
+            d1, d2 = d2, d1
+        pg = gen.PathGen(rng, rng.choice(["child", "all", "nopar"]), "has")
+        pre = pg.gen_path([d1], maxlen=2, minlen=1)
+        exts = []
+        for _ in range(2):
+            e = pg.gen_path([d1], maxlen=2, minlen=1)
+            if pre and pre[-1][0] == "rec" and e and e[0][0] == "rec":
+                e = e[1:] or [["gwc"]]
+            exts.append(e)
+        order = [(rng.randrange(3), rng.randrange(2), rng.random() < 0.2) for _ in range(rng.randint(4, 8))]
+        return {"docs": [gen.enc(d1), gen.enc(d2)], "pre": pre, "exts": exts, "order": order}
+    _run(ctx, "reuse", 1500, 40000, make, reuse_check)
+
+
+CHECKS["reuse"] = reuse_check
+CHECKS["threads_long"] = thread_long_check
+
+
+# ---------------- C05 / C16 / C20: documents deeper than the interpreter's recursion limit ----------------
+
+def deep_check(sc):
+    """the traverser is iterative: a document nested deeper than Python's recursion limit is a
+    JSON tree like any other.  (Rendering the path of such a match recurses in the unchanged
+    library too, so nothing here renders one.)"""
+    from treepath import MatchNotFoundError, NestedMatchNotFoundError
+    depth, kind = sc["depth"], sc["kind"]
+    leaf = {"bottom": 1, "zero": 0}
+    doc = leaf
+    for i in range(depth):
+        doc = {"n": doc} if kind == "dict" or (kind == "mixed" and i % 2) else [doc]
+    try:
+        vals = list(itertools.islice(find(path.rec.bottom, doc), 3))
+        if vals != [1]:
+            return f"find(path.rec.bottom) on a document of depth {depth} yields {vals!r}", True
+        m = get_match(path.rec.zero, doc)
+        if m is None or m.data != 0:
+            return "get_match(path.rec.zero) does not find the present falsy value", True
+        leafm = get_match(path.rec[lambda x: isinstance(x.data, dict) and "bottom" in x.data], doc)
+        if leafm is None or leafm.data is not leaf:
+            return "the deepest container is not found by a filter after rec", True
+        if get(path.bottom, leafm) != 1:
+            return "get(path.bottom, <deep match>) does not find the value", True
+        if get(path.nope, leafm, default=7) != 7 or get_match(path.nope, leafm, must_match=False) is not None:
+            return "default / must_match=False from a deep match", True
+        try:
+            get(path.nope, leafm)
+            return "get(path.nope, <deep match>) returned instead of raising", True
+        except NestedMatchNotFoundError:
+            pass
+        try:
+            get_match(path.rec.nope, doc)
+            return "get_match(path.rec.nope) returned instead of raising", True
+        except MatchNotFoundError:
+            pass
+        up = get(path.parent.zero, get_match(path.bottom, leafm))
+        if up != 0:
+            return "a parent step from a deep match does not climb", True
+    except RecursionError:
+        return f"RecursionError on a document of depth {depth} ({kind})", True
+    return None, True
+
+
+def deep_oracle(ctx):
+    def make(rng):
+        return {"depth": rng.choice([1200, 2000, 3000]), "kind": rng.choice(["dict", "list", "mixed"])}
+    _run(ctx, "deep", 3, 12, make, deep_check)
+
+
+CHECKS["deep"] = deep_check
 
 
 # ---------------- C16: only documented errors, printable ----------------
